@@ -534,6 +534,7 @@ func runCheck(o *checkOpts) int {
 			}()
 		}
 	}
+	knownPre := loadKnownFindings(filepath.Join(o.verif, "known_findings.txt"))
 	mode := "race"
 	if o.tier == "thorough" {
 		mode = "race"
@@ -556,6 +557,10 @@ func runCheck(o *checkOpts) int {
 			if (r.Kind == "cover" || r.Kind == "consistency") && to > 10 {
 				// vacuity guards only have to be "not refuted": a short budget is enough to catch a contradiction
 				to = 10
+			}
+			if knownPre.match(spec.ID, r.Name) != nil && to > 20 {
+				// an obligation listed as a known finding is expected to fail: do not spend the full budget on it
+				to = 20
 			}
 			if !r.Claimed && to > 90 {
 				// stretch obligations are informative only: bound what the thorough tier spends on each
